@@ -52,17 +52,17 @@ ASSUMPTIONS.update({
                "Go map iteration order inside the code under test is not controlled: a replay may need more than one attempt (the driver retries 3 times)"],
     "worlds": ["the reference agent is the specification of the underlying ssh-agent", "x/crypto agent client wire codec trusted", "Go map iteration order inside the shim is not controlled (affects the order of upstream removals only)"],
     "worldl": ["gRPC, crypto/tls, crypto/x509 trusted", "crypki.NewSigner runs outside the bubble; client certificates are valid 1999-2100 so that they are valid in real and simulated time"],
-    "worlda": ["crypto/x509 chain verification and math/big trusted", "RSA keys come from a committed pool (1024, 1536, 2048, 3072, 4096 bits)"],
+    "worlda": ["crypto/x509 chain verification and math/big trusted", "RSA keys come from a committed pool (1024, 1536, 2048, 3072, 4096 bits; tagged entries with public exponent 3 / 17 / 257 and with 5120 / 8192-bit moduli)"],
 })
 MUST_PROBE = {
     "C11": ["linearizable", "transport_disciplined", "runs_with_lock_contention", "purge_during_concurrent_run"],
     "C20": ["released_by_matching_request", "stayed_blocked_without_matching_request", "unsupported_code_immediate", "waiter_parked_before_cleanup", "request_on_another_agent_of_the_process"],
-    "C06": ["accepted_valid_null", "accepted_valid_nonull", "rejected_by_chain_or_clock", "rejected_by_signature", "genuine_device_attested_first_on_same_attestor"],
+    "C06": ["accepted_valid_null", "accepted_valid_nonull", "rejected_by_chain_or_clock", "rejected_by_signature", "genuine_device_attested_first_on_same_attestor", "accepted_valid_special_key"],
     "C07": ["listing_agrees", "purged_sign_refused", "hardcert_accepted"],
     "C08": ["locked_list_empty", "locked_op_refused", "unlocked_with_passphrase", "wrong_passphrase_refused"],
     "C09": ["differential_hidden_some", "hidden_sign_refused"],
     "C10": ["hardcert_accepted", "hardcert_refused", "sign_with_hardware_cert", "forward_relayed", "op_under_fault", "construct_failure_reported", "slow_reply/raw"],
-    "C13": ["op_agrees", "served_failure", "slots_agree", "remote_slot_op", "short_slot_line"],
+    "C13": ["op_agrees", "served_failure", "slots_agree", "remote_slot_op", "short_slot_line", "signed_through_client_signer", "kept_key_intact_after_later_requests"],
     "C17": ["signed", "failover_used", "all_endpoints_fail", "retry_backoff_seen", "backoff_in_bounds", "endpoint_reachable_again_in_later_call"],
     "C18": ["signed", "impostor_before_genuine", "client_cert_presented", "client_chain_presented", "impostor_from_ca_of_another_tls_client"],
     "C01": ["proof_ok", "all_rejected", "regular_success"],
